@@ -138,7 +138,7 @@ func buildPool() *keyPool {
 	for _, s := range []string{
 		"a", "b", "c", "d", "ab", "abc", "\x00", "\x00\x00", "\xff", "\xff\xff\xff", "a\x00", "key-1", "key-2",
 		"0123456789abcdef0123456789abcdef01234567", // 40 bytes
-		"kkkkkkkkkkkkkkkkkkkkkkkkkkkkkkkkkkkkkkkkkkkkkkkkkkkkkkkkkkkkkkkkkkkkkkkkkkkkkkkkkkkkkkkkkkkkkkkkkkkkkkkkkkkk", // 100 bytes
+		"kkkkkkkkkkkkkkkkkkkkkkkkkkkkkkkkkkkkkkkkkkkkkkkkkkkkkkkkkkkkkkkkkkkkkkkkkkkkkkkkkkkkkkkkkkkkkkkkkkkkkkkkkkkk", // 108 bytes
 		"\x01", "\x02", "\x03", // the realm / fixed-key bytes used inside the store
 	} {
 		p.shorts = append(p.shorts, mkKey([]byte(s)))
